@@ -258,8 +258,45 @@ def d3(ctx, F):
         ctx.check(bool(ok), "C11.D3.open-checks-reply", "open_stream:reply-unchecked:%s" % b.path.split("::")[4], "%s awaits handle_reply and propagates its error" % b.path.split("::{")[0], b.span)
 
 
+def d4(ctx, F):
+    """refusals actually reach the peer: every Frame::Error built by the stream handler (or its helpers) is handed to SinkExt::send and that
+    future is awaited — `feed` / `start_send` only buffer and the buffer is discarded when the stream is dropped"""
+    hs = F.one_body(r"^selium_server::server::handle_stream::\{closure#0\}$")
+    region = [b for b in F.region([hs]).values() if b.crate == "selium_server" and "::topic::" not in b.path and "::sink::" not in b.path]
+    n = 0
+    for b in sorted(region, key=lambda b: b.path):
+        ctx.touch(b)
+        aws = flow.awaits(b)
+        for i, j, pl, rv, s in K.aggregates(b, FRAME):
+            if rv["variant"] not in ("Error", "Ok"):
+                continue
+            n += 1
+            fv = flow.derived(b, {pl["l"]}, calls=())
+            users = [c for c in b.calls() if any(op_local(a) in fv for a in c.args)]
+            sends = [c for c in users if strip_generics(c.callee) == "futures_util::sink::SinkExt::send"]
+            awaited = [c for c in sends if any(a.source is c for a in aws)]
+            weak = [c for c in users if strip_generics(c.callee) in ("futures_util::sink::SinkExt::feed", "futures_sink::Sink::start_send", "futures_util::sink::SinkExt::start_send_unpin")]
+            flushed = [c for c in b.calls() if strip_generics(c.callee) in ("futures_util::sink::SinkExt::flush", "futures_util::sink::SinkExt::close") and any(a.source is c for a in aws)]
+            good = bool(awaited) or (bool(weak) and bool(flushed) and all(any(b.dominates(w.bb, f.bb) for f in flushed) for w in weak))
+            short = b.path.split("selium_server::")[-1].split("::{")[0]
+            ctx.check(good, "C11.D4.answer-delivered", "answer-not-flushed:%s:%s" % (short, rv["variant"]),
+                      "in %s the Frame::%s answer is sent with SinkExt::send(..).await (written and flushed), not merely buffered" % (short, rv["variant"]), s["span"])
+    ctx.floor("C11.D4.answer-sites", n, 2)
+
+
+def d5(ctx, F):
+    """`payload sizes anywhere up to the frame limit`: what the encoder accepts the decoder accepts — the limit rules of C05.D3"""
+    from . import c05
+    c05.d3(ctx, F)
+
+
 def run(ctx):
     F = ctx.facts("quick")
     d1(ctx, F)
     d2(ctx, F)
     d3(ctx, F)
+    d4(ctx, F)
+    d5(ctx, F)
+    # a live requestor must not be displaced by a newcomer (its stream would be dropped without any frame): id rules of C02.D1
+    from . import c02
+    c02.d1(ctx, F)
